@@ -24,6 +24,18 @@ impl Rewriter {
     pub fn new<P: Into<PathBuf>>(base: P) -> Self {
         Self { base: base.into() }
     }
+
+    /// Joins a relative path to the base directory. The result is normalized when
+    /// it is absolute, so that every spelling of a file gives the same path (one
+    /// cache key for its ops, and import chains cannot grow without bound).
+    fn absolute(&self, path: PathBuf) -> PathBuf {
+        let joined = self.base.join(path);
+        if joined.is_absolute() {
+            crate::path::normalize(joined)
+        } else {
+            joined
+        }
+    }
 }
 
 impl Visitor for Rewriter {
@@ -33,7 +45,7 @@ impl Visitor for Rewriter {
         if let Expression::Include(def) = expr {
             let path = PathBuf::from(def.path.fragment.as_ref());
             if path.is_relative() {
-                def.path.fragment = self.base.join(path).to_string_lossy().to_string().into();
+                def.path.fragment = self.absolute(path).to_string_lossy().to_string().into();
             }
         }
         if let Expression::Import(def) = expr {
@@ -48,7 +60,7 @@ impl Visitor for Rewriter {
                 return;
             }
             if path.is_relative() {
-                def.path.fragment = self.base.join(path).to_string_lossy().to_string().into();
+                def.path.fragment = self.absolute(path).to_string_lossy().to_string().into();
             }
         }
     }
